@@ -209,7 +209,7 @@ func (e *env) judge(frames []src, out []byte, fail func(sig, detail string)) {
 func main() {
 	xlog.ReplaceGlobal(xlog.New(xlog.NewNopCore()))
 	rep := report.New("C09", "exploration")
-	rep.Rule = "every elementary-stream size from 1 to 3*184+30 bytes (all residues mod 184) for each first-packet shape (key+PCR / non-key x PTS-only / PTS+DTS, video NAL types 1,5,6,7,8,9 and AAC), large sizes around 65535 and 200000, PTS/DTS over {0,1,2^15-1,2^15,2^30-1,2^30,2^32,2^33-1}, every pair of consecutive frame sizes up to the tier bound on one PID and across PIDs, and every frame-kind sequence up to the tier length (continuity across frames), through the real packetisers and mpegts.Writer; output checked by an independent ISO 13818-1 demultiplexer + Annex-B/ADTS splitters; distinct = distinct (kind, size, timestamps) or sequences"
+	rep.Rule = "every elementary-stream size from 1 to 6*184+30 bytes (12*184+30 in the thorough tier) (all residues mod 184) for each first-packet shape (key+PCR / non-key x PTS-only / PTS+DTS, video NAL types 1,5,6,7,8,9 and AAC), large sizes around 65535 and 200000, PTS/DTS over {0,1,2^15-1,2^15,2^30-1,2^30,2^32,2^33-1}, every pair of consecutive frame sizes up to the tier bound on one PID and across PIDs, and every frame-kind sequence up to the tier length (continuity across frames), through the real packetisers and mpegts.Writer; output checked by an independent ISO 13818-1 demultiplexer + Annex-B/ADTS splitters; distinct = distinct (kind, size, timestamps) or sequences"
 	rep.Assumptions = []string{"source units of NAL type 7/8/9 may be omitted from the TS (parameter sets are re-inserted on key frames) but, if written, must be valid Annex-B"}
 	e := newEnv()
 	type job struct {
@@ -217,7 +217,7 @@ func main() {
 		desc   string
 	}
 	var jobs []job
-	maxSize := 184*3 + 30
+	maxSize := 184*6 + 30
 	if rep.Thorough() {
 		maxSize = 184*12 + 30
 	}
@@ -251,7 +251,7 @@ func main() {
 	}
 	// consecutive frames of every size pair: stuffing of one frame next to the continuity counter,
 	// PCR and PES header of the next, on the same PID and across PIDs
-	pairMax := 60
+	pairMax := 200 // every residue pair modulo 184 at least once
 	if rep.Thorough() {
 		pairMax = 760
 	}
@@ -262,7 +262,7 @@ func main() {
 		}
 	}
 	// sequences mixing PIDs
-	maxLen := 4
+	maxLen := 5
 	if rep.Thorough() {
 		maxLen = 7
 	}
